@@ -57,6 +57,15 @@ void drv_c14_kern(int tier, unsigned long seed, const char *extra) {
       { int ci; fn_begin("mpn_addsub_n"); fn_in_limbs("a", a, n); fn_in_limbs("b", b, n); fn_in_limbs("c", c, n); fn_in_int("n", n); fn_mid(); gb_fill(r, n); ci = mpn_addsub_n(r, a, b, c, n); fn_out_limbs("r", r, n); fn_out_int("cyi", ci); fn_end();
         MPN_COPY(d, a, n); fn_begin("mpn_addsub_n"); fn_in_limbs("a", d, n); fn_in_limbs("b", b, n); fn_in_limbs("c", c, n); fn_in_int("n", n); fn_mid(); ci = mpn_addsub_n(d, d, b, c, n); fn_out_limbs("r", d, n); fn_out_int("cyi", ci); fn_end();
         MPN_COPY(d, c, n); fn_begin("mpn_addadd_n"); fn_in_limbs("a", a, n); fn_in_limbs("b", b, n); fn_in_limbs("c", d, n); fn_in_int("n", n); fn_mid(); cy = mpn_addadd_n(d, a, b, d, n); fn_out_limbs("r", d, n); fn_out_u64("cy", cy); fn_end(); }
+      /* sumdiff / nsumdiff: separate operands and every permitted identity of a destination with an operand
+         (s==x&&d==y and s==y&&d==x take a heap temporary; s==x, s==y, d==x, d==y take the other two branches) */
+      { int w, al; for (w = 0; w < 2; w++) for (al = 0; al < 7; al++) { mp_limb_t ret; mp_ptr x = gb_get(5, n, place), y = gb_get(6, n, place), sp, dp;
+          MPN_COPY(x, a, n); MPN_COPY(y, b, n); gb_fill(r, n); gb_fill(d, n);
+          sp = al == 1 || al == 3 ? x : al == 2 || al == 4 ? y : r;      /* 1: s=x,d=y  2: s=y,d=x  3: s=x  4: s=y  5: d=x  6: d=y */
+          dp = al == 1 || al == 6 ? y : al == 2 || al == 5 ? x : d;
+          fn_begin(w ? "mpn_nsumdiff_n" : "mpn_sumdiff_n"); fn_in_limbs("a", x, n); fn_in_limbs("b", y, n); fn_in_int("n", n); fn_in_int("al", al); fn_mid();
+          ret = w ? mpn_nsumdiff_n(sp, dp, x, y, n) : mpn_sumdiff_n(sp, dp, x, y, n);
+          fn_out_limbs("s", sp, n); fn_out_limbs("d", dp, n); fn_out_int("ret", (long)ret); fn_end(); } }
       { mp_limb_t ret; fn_begin("mpn_sumdiff_n"); fn_in_limbs("a", a, n); fn_in_limbs("b", b, n); fn_in_int("n", n); fn_mid(); gb_fill(r, n); gb_fill(d, n); ret = mpn_sumdiff_n(r, d, a, b, n); fn_out_limbs("s", r, n); fn_out_limbs("d", d, n); fn_out_int("ret", (long)ret); fn_end(); }
       /* error-term kernels (mpn_add_err1_n ...): r = a +- b +- cy, the carry out, and the two-limb sums of the y limbs selected by the carries; both carry-in
          values, equal operands (the borrow chain runs through), destination = either source */
